@@ -162,3 +162,12 @@ claim('C06',
       'stand-alone run is NOT decided.',
       'Trusted: receiver table, entry-point list and caller-side rebind sites in dsa/rules/c06.py.',
       'DESIGN.md 4 C06')
+claim('C01',
+      'exact polynomial algebra (D_poly) on the heat-transfer constants and update terms extracted from the AST, per subchannel-type pair; def-use / once-and-order rules on the CFG; sibling-branch agreement',
+      'Structural necessary conditions of C01 (DESIGN 4.1), decided algebraically where possible: the pin heat fractions partition every pin class and the same weights go both ways; m_i cp dT_i from the '
+      'heat source equals q_i identically (flow split and area share cancel); the exchange coefficient of every subchannel-type pair reduces to keff d_ij / L_ij and is symmetric (so conduction and '
+      'turbulent mixing cancel in the mass-flow weighted sum), also for bypass gaps; m_i cp x swirl coefficient is cp rho d v for edge and corner cells alike with one swirl velocity (closed ring '
+      'telescopes); wall heat equals wetted wall length x h x dT, the tallied quantity, with the same wall length in sibling branches; the state is advanced once per step by += in the right order; '
+      'a region change carries the overall mixed mean; low-fidelity models satisfy Q = m cp dT with a cancelling ring exchange. The numeric residual and run-time adjacency symmetry are NOT decided.',
+      'Trusted: atom tables in dsa/rules/c01.py (unknown quantities become fresh symbols and surface as residuals), dsa/poly.py.',
+      'DESIGN.md 4 C01')
